@@ -23,6 +23,21 @@ def random_cases(rng, n):
         for _ in range(m):
             xs.append(t)
             t += g0 if uni else Fraction(rng.randint(1, 8), 4)
+        if rng.random() < 0.3:
+            # decimal abscissae (tenths / hundredths, not representable in binary), half of them starting below zero and ending nearer
+            # to it: a shifted or rescaled time axis does not map back onto the samples exactly (seed C16k: last sample outside the
+            # spline's base interval by one ulp)
+            den = rng.choice([10, 10, 100, 3])
+            m = min(m, 60)
+            t = Fraction(rng.randint(-200, -20) if rng.random() < 0.5 else rng.randint(-40, 40), den)
+            g0 = Fraction(rng.randint(1, 30), den)
+            xs = []
+            for _ in range(m):
+                xs.append(t)
+                t += g0 if uni else Fraction(rng.randint(1, 30), den)
+            if uni and xs[0] < 0 and rng.random() < 0.7:     # evenly spaced from a negative start to a small positive end
+                hi = Fraction(rng.randint(1, 15), den)
+                xs = [xs[0] + (hi - xs[0]) * Fraction(i, m - 1) for i in range(m)]
         kind = rng.random()
         if kind < 0.2:            # affine data: smoothing must be the identity for every s
             sl, ic = Fraction(rng.randint(-12, 12), 4), Fraction(rng.randint(-20, 20), 4)
@@ -50,7 +65,7 @@ def random_cases(rng, n):
         if pre and any(o["k"] == "normalize_y" for o in pre) and len(set(ys)) < 2:
             pre = []
         cont = "array"
-        if rng.random() < 0.2:        # integer-valued series handed over in integer-typed arrays (only dtype-preserving steps before)
+        if rng.random() < 0.2 and all((v * 4).denominator == 1 for v in xs):   # integer-valued series handed over in integer-typed arrays (only dtype-preserving steps before)
             xs = [Fraction(int(v * 4)) for v in xs]
             ys = [Fraction(int(v * 4)) for v in ys] if not affine else [Fraction(int(sl * 4)) * v + int(ic) for v in xs]
             pre = [o for o in pre if o["k"] == "append" or (o["k"] in ("scale_y", "shift_y", "scale_x", "shift_x") and o["v"][1] == 1)]
